@@ -254,3 +254,15 @@ def pool_target2(x):
 def ctx_target(x, tag='?', *, mul=1):
     """C18 context target: the context's defaults (tag, mul) identify the context."""
     return [tag, x * mul]
+
+
+def big_marked(markdir=None, n=100000):
+    """Returns a result larger than the pipe buffer; markers like the other landing-point targets."""
+    try:
+        mark(markdir, 'entered')
+        return b'r' * n
+    except WorkerTerminatedError:
+        mark(markdir, 'except_wte')
+        raise
+    finally:
+        mark(markdir, 'finally')
